@@ -48,7 +48,7 @@ def run(modules, select=None, jobs=None, opts=None):
             continue
         if select is not None and not select(c):
             continue
-        todo.append((modules, c.file, c.qualname, opts))
+        todo.append((modules, c.key[0], c.key[1], opts))
     jobs = jobs or min(16, max(1, len(todo)))
     t0 = time.time()
     if jobs == 1 or len(todo) <= 1:
@@ -63,7 +63,7 @@ def run(modules, select=None, jobs=None, opts=None):
 if __name__ == "__main__":
     mods = sys.argv[1].split(",")
     only = set(sys.argv[2:])
-    reg, results, wall = run(mods, (lambda c: c.qualname in only) if only else None)
+    reg, results, wall = run(mods, (lambda c: c.key[1] in only or c.qualname in only) if only else None)
     bad = 0
     for r in results:
         obs = r["obligations"]
